@@ -139,6 +139,13 @@ bool index_read(zckCtx *zck, char *data, size_t size, size_t max_length) {
         }
         new->length = chunk_length;
 
+        /* A chunk can't decompress to something from nothing */
+        if(new->comp_length == 0 && new->length != 0) {
+            set_fatal_error(zck, "Chunk %i has an uncompressed size, but no "
+                            "data", count);
+            return false;
+        }
+
         /* Every size and offset is reported through ssize_t, so refuse
          * anything that can't be represented */
         size_t hdr_length = zck->lead_size + zck->header_length;
